@@ -47,10 +47,14 @@ def translate(ctx: Ctx) -> Dict[str, str]:
     return SP.translate(ctx)
 
 
-def write_solution(M, results, roots, repo, path: str, multiline: bool) -> str:
+def hashes_of(results, roots) -> Dict[str, Optional[str]]:
+    return {n.key: n.metadata.hash for n in results.visit_nodes(roots) if n.metadata is not None and not n.metadata.meta}
+
+
+def write_solution(M, results, roots, repo, path: str, multiline: bool, hashes: bool = False) -> str:
     import req_compile.cmdline as CL
     buf = io.StringIO()
-    CL.write_requirements_file(results, roots, repo=repo, multiline=multiline, write_to=buf)
+    CL.write_requirements_file(results, roots, repo=repo, multiline=multiline, hashes=hashes, write_to=buf)
     text = buf.getvalue()
     with open(path, "w", encoding="utf-8") as fh:
         fh.write(text)
@@ -168,16 +172,21 @@ def build_chain(ctx: Ctx, M, alphabet, tmp: str, idx: int) -> Optional[Dict[str,
     if variant == "v3-release-one":
         excluded = [rng.choice(sorted(first["emitted"]))]
     ob = rng.choice([None, None, ":all:", rng.sample(sorted(first["emitted"]), 1)])
-    return exec_chain(M, tmp, idx, case, first, variant, new_uni, excluded, inputs, multiline, ob, ctx.count)
+    with_hashes = rng.random() < 0.5
+    if excluded:
+        # the released project is named the way a user would type it: any equivalent spelling
+        excluded = [rng.choice(solverlib.SPELL.get(x, [x]) + [x.upper()]) for x in excluded]
+    return exec_chain(M, tmp, idx, case, first, variant, new_uni, excluded, inputs, multiline, ob, ctx.count, with_hashes)
 
 
 def exec_chain(M, tmp: str, idx: int, case, first, variant: str, new_uni, excluded: List[str], inputs, multiline: bool, ob,
-               count=lambda *_a: None) -> Optional[Dict[str, Any]]:
+               count=lambda *_a: None, with_hashes: bool = False) -> Optional[Dict[str, Any]]:
     """the deterministic part of a chain: write the first result, load it back, compile again (also used by replays)"""
     CP, C, D, E, R, U = M
     path = os.path.join(tmp, f"sol{idx}.txt")
     try:
-        write_solution(M, first["_results"], first["_roots"], first["_repo"], path, multiline)
+        write_solution(M, first["_results"], first["_roots"], first["_repo"], path, multiline, hashes=with_hashes)
+        first_hashes = hashes_of(first["_results"], first["_roots"]) if with_hashes else None
     except Exception as ex:  # noqa: BLE001
         count("writer-raised:" + type(ex).__name__)
         return None
@@ -209,7 +218,8 @@ def exec_chain(M, tmp: str, idx: int, case, first, variant: str, new_uni, exclud
                    "only_binary": ob}
     second = run_second(second_case, repo2, M)
     second["index_log"] = list(mem2.log)
-    return {"variant": variant, "case": case, "first": first, "second_case": second_case, "second": second,
+    return {"with_hashes": with_hashes, "first_hashes": first_hashes,
+            "variant": variant, "case": case, "first": first, "second_case": second_case, "second": second,
             "excluded": excluded, "multiline": multiline, "loader_diff": loader_diff,
             "loaded": canon_universe(su_loaded) if loader_diff else None, "new_universe": new_uni}
 
@@ -224,7 +234,7 @@ def rerun_chain(ctx: Ctx, d: Dict[str, Any]) -> Optional[Dict[str, Any]]:
         if first["kind"] != "OK":
             return None
         return exec_chain(M, tmp, 999, d["case"], first, d["variant"], d["new_universe"], d["excluded"], d["second_inputs"],
-                          d["multiline"], d.get("only_binary"))
+                          d["multiline"], d.get("only_binary"), with_hashes=bool(d.get("with_hashes")))
     return solverlib.in_big_thread(work)
 
 
@@ -243,6 +253,7 @@ def run_second(case: Dict[str, Any], repo, M) -> Dict[str, Any]:
         out = {"kind": "OK", "graph": graphenc.obs_graph(results, with_bc=False), "roots": sorted(r.key for r in roots)}
         emitted = [n for n in results.visit_nodes(roots) if n.metadata is not None and not n.metadata.meta]
         out["emitted"] = sorted(n.key for n in emitted)
+        out["hashes"] = hashes_of(results, roots)
         out["explain"] = {}
         for n in emitted:
             try:
@@ -291,6 +302,9 @@ def chain_violation(ch: Dict[str, Any]) -> Optional[str]:
             return f"pins changed although inputs are unchanged: {diff}"
         if second.get("index_log"):
             return f"other repositories were contacted for {sorted(set(second['index_log']))}"
+        w = hash_violation(ch, p1)
+        if w:
+            return w
     elif variant == "v2-subset-solution-only":
         root_keys = [graphenc_key(n) for (n, _) in ch["second_case"]["inputs"]]
         want_keys = reach_from(first, root_keys)
@@ -299,6 +313,9 @@ def chain_violation(ch: Dict[str, Any]) -> Optional[str]:
             return f"a subset of the original inputs does not compile against the solution alone ({second['kind']})"
         if pins_of(second) != want:
             return f"sub-closure differs: expected {want}, got {pins_of(second)}"
+        w = hash_violation(ch, want)
+        if w:
+            return w
     elif variant == "v3-release-one":
         if second["kind"] == "NOCAND":
             # honest only if no repository of the stack offers the failing project in a version the failing request accepts
@@ -311,6 +328,11 @@ def chain_violation(ch: Dict[str, Any]) -> Optional[str]:
             return None     # the released project may legitimately have no acceptable newer version
         p2 = pins_of(second)
         rel = {graphenc_key(x) for x in ch["excluded"]}
+        # a released project is decided by the other repositories, not by the solution: they must have been asked for it
+        for k in sorted(rel):
+            if k in p2 and k not in set(second.get("index_log") or []):
+                return (f"{ch['excluded']} was released for upgrade but {k}=={p2[k]} was answered by the solution "
+                        f"(the other repositories were never asked for it)")
         from packaging.requirements import Requirement
         from packaging.version import Version
         import solver_oracles as SO
@@ -342,6 +364,17 @@ def chain_violation(ch: Dict[str, Any]) -> Optional[str]:
                             forced = True
             if not forced:
                 return f"releasing {sorted(rel)} moved {k} {v1} -> {p2[k]} although nothing in the new solution forces it"
+    return None
+
+
+def hash_violation(ch: Dict[str, Any], same_pins: Dict[str, str]) -> Optional[str]:
+    """same pins => same hashes, when the solution was written with hashes"""
+    if not ch.get("with_hashes") or not ch.get("first_hashes"):
+        return None
+    h2 = ch["second"].get("hashes") or {}
+    for k in sorted(same_pins):
+        if ch["first_hashes"].get(k) and h2.get(k) != ch["first_hashes"][k]:
+            return f"hash of {k}=={same_pins[k]} is {h2.get(k)} after feeding the solution back, it was {ch['first_hashes'][k]}"
     return None
 
 
@@ -395,6 +428,9 @@ def correspondence(ctx: Ctx) -> None:
         if chain_violation(ch):
             viol += 1
             ctx.extra.setdefault("statement_violations_examples", []).append({"why": chain_violation(ch), "new": bool(new_violation(ch)), "chain": _brief_chain(ch)})
+            if new_violation(ch):
+                # the statement fails on the real code where it holds for the model on the same chain (pins, index requests, hashes)
+                ctx.mismatch("chain-statement", {"chain": _brief_chain(ch)}, chain_violation(ch), "holds for the model's second compile")
     for ch in chains:
         if "loader_error" in ch:
             ctx.case(key=json.dumps([ch["case"]["universe"], ch["case"]["inputs"], "loader"], sort_keys=True), nontrivial=True)
@@ -410,7 +446,7 @@ def correspondence(ctx: Ctx) -> None:
 
 def _brief_chain(ch: Dict[str, Any]) -> Dict[str, Any]:
     return {"variant": ch["variant"], "case": solver_case(ch["case"]), "second_inputs": ch["second_case"]["inputs"],
-            "excluded": ch["excluded"], "multiline": ch["multiline"], "stack": ch["second_case"]["stack"],
+            "excluded": ch["excluded"], "multiline": ch["multiline"], "with_hashes": ch.get("with_hashes", False), "stack": ch["second_case"]["stack"],
             "only_binary": ch["second_case"].get("only_binary"), "new_universe": ch.get("new_universe")}
 
 
@@ -429,6 +465,7 @@ def new_violation(ch: Dict[str, Any]) -> Optional[str]:
         return None
     shadow = dict(ch)
     shadow["second"] = dict(m)
+    shadow["second"]["hashes"] = dict(ch.get("first_hashes") or {})     # the model carries no hashes: a pin's hash is a function of the pin
     shadow["second"]["index_log"] = [] if solverlib.canon(m) == solverlib.canon(ch["second"]) and not ch["second"].get("index_log") else ch["second"].get("index_log")
     return None if chain_violation(shadow) else w
 
